@@ -548,6 +548,22 @@ class Ctx:
             call.where, {'rule': rule, 'call': call.callee, 'arg': idx, 'required_atoms': pats, 'atoms': sendsmod.pretty(atoms)})
         return ok
 
+    # ------------------------------------------------------------------ K10 index agreement
+    def index_atoms(self, f, call, idx):
+        """provenance of an index argument (narrow slice, field / param / callee / literal / operator atoms)"""
+        at = self.prog.narrow.operand(f, call.args[idx])
+        return frozenset(a for a in at if a[0] in ('F', 'P', 'C', 'K', 'V', 'T', 'E', 'OP', 'XOP'))
+
+    def index_agreement(self, rule, key, f, sites, what):
+        """`sites`: [(label, call, arg index)] in one function. All the index arguments must have the same provenance:
+        a container entry that is loaded under one index must be stored back - and flagged in sibling tables - under the same one."""
+        ats = [(lab, self.index_atoms(f, c, i), c) for (lab, c, i) in sites]
+        ok = len(ats) >= 2 and all(a == ats[0][1] and a for (_l, a, _c) in ats)
+        import sends as _s
+        self.rep.need(rule, key, ok, '%s: %s' % (what, '; '.join('%s <- %s' % (l, _s.pretty(a, keep=('F', 'K', 'E', 'C', 'V', 'P', 'T')) ) for (l, a, _c) in ats)),
+                      ats[0][2].where if ats else self.loc(f), {'rule': rule, 'fn': f.id, 'sites': [(l, sorted(map(str, a))) for (l, a, _c) in ats]})
+        return ok
+
     # ------------------------------------------------------------------ K11 constants
     def const_is(self, rule, name, value, crate_prefix=None):
         cs = [c for k, c in self.prog.consts.items() if k.endswith('::' + name) and (not crate_prefix or k.startswith(crate_prefix))]
